@@ -580,6 +580,11 @@ func c11Work(c *engine.Ctx) {
 			c.Exec(anysp, in, nil)
 			c.Count("exec", 1)
 		})
+		c.ByteSweep([]byte(seed), true, func(in []byte) {
+			c.Exec(anysp, in, nil)
+			c.Count("exec", 1)
+			c.Count("byte-sweep", 1)
+		})
 	}
 }
 
